@@ -190,8 +190,10 @@ class CaseTag(Tag):
             next(stream)
             try:
                 expressions.append(parse_primitive(self.env, stream))
-            except LiquidSyntaxError:
-                # Use expressions we have so far an discard the rest.
+            except LiquidSyntaxError as err:
+                # Raise or warn according to the current mode. If we're still here,
+                # use expressions we have so far and discard the rest.
+                self.env.error(err)
                 return expressions
 
         return expressions
